@@ -283,3 +283,81 @@ def is_call_to(t, *names):
         if (c and path_matches(c, n)) or (r and path_matches(r, n)):
             return True
     return False
+
+
+# ---------------------------------------------------------------------------------------
+# guard queries
+
+
+def all_guards(fn):
+    """[(block, edge idx, Guard)] for all switch edges of fn (cached)."""
+    c = getattr(fn, "_all_guards", None)
+    if c is None:
+        c = [(b, i, decode_edge(fn, b, i)) for (b, i, _s, _lab) in fn.switch_edges()]
+        fn._all_guards = c
+    return c
+
+
+def guarded(fn, target, pred, frm=0):
+    """True iff every path frm->target crosses a switch edge whose Guard satisfies pred.
+    Returns (bool, matching edges)."""
+    edges = [(b, i) for (b, i, g) in all_guards(fn) if pred(g)]
+    return fn.unreachable_without(target, edges, frm), edges
+
+
+def g_call(name, truth=None, argpred=None):
+    """Guard: boolean call result `name(..)` is `truth`."""
+
+    def pred(g):
+        if g.kind != "bool" or g.term[0] != "call" or not g.term[1] or not path_matches(g.term[1], name):
+            return False
+        if truth is not None and g.truth != truth:
+            return False
+        return argpred(g.term[2]) if argpred else True
+
+    return pred
+
+
+def g_cmp(op, truth, apred=None, bpred=None):
+    def pred(g):
+        if g.kind != "bool" or g.term[0] != "cmp" or g.term[1] != op or g.truth != truth:
+            return False
+        if apred and not apred(g.term[2]):
+            return False
+        if bpred and not bpred(g.term[3]):
+            return False
+        return True
+
+    return pred
+
+
+def try_inner(term):
+    """For branch(x) / branch(map_err(x, f)) return x (the fallible call term) else None."""
+    if term[0] == "call" and term[1] and term[1].endswith("Try::branch"):
+        x = term[2][0]
+        while x[0] == "call" and x[1] and (x[1].endswith("Result::map_err") or x[1].endswith("::map_err")):
+            x = x[2][0]
+        return x
+    return None
+
+
+def g_try_ok(name, argpred=None):
+    """Guard: `name(..)?` took the Ok/Continue edge (also accepts a match on the Result's Ok variant)."""
+
+    def pred(g):
+        if g.kind != "variant":
+            return False
+        t = g.term
+        if g.variant == "Continue":
+            x = try_inner(t)
+        elif g.variant == "Ok":
+            x = t
+            while x[0] == "call" and x[1] and x[1].endswith("::map_err"):
+                x = x[2][0]
+        else:
+            return False
+        if x is None or x[0] != "call" or not x[1] or not path_matches(x[1], name):
+            return False
+        return argpred(x[2]) if argpred else True
+
+    return pred
